@@ -24,7 +24,54 @@ OPERATORS = [K + m for m in ("__or__", "__ror__", "__sub__", "__rsub__", "__inve
 CORE = [K + "__or", K + "__sub"]
 
 
+# F2 - the two plain-string helpers of the text layer are decided COMPLETELY by data independence: their bodies (compared, without
+# doc strings, with the forms below every run) only count / split at '-', test membership in _to_escape, test lengths and copy
+# characters; their behaviour on an item is therefore a function of WHICH of its characters are '-' / the six escapable ones, and
+# the items are treated one at a time.  All item shapes over those characters plus two representatives of "any other character"
+# are run on the real code (pvc/bex_misc.py).  If a body no longer has this form the decision is no longer complete: the runs
+# still count as a bounded check and the obligation is listed as no longer proved (PROOF-LOST), not as a violation.
+from contracts.f2_forms import FORMS as F2_FORMS
+
+
+def f2(rep):
+    import ast
+    from .. import extract
+    from ..common import native
+    idx = extract.Index()
+
+    def body_text(fi):
+        def strip(n):
+            for x in ast.walk(n):
+                if isinstance(x, ast.FunctionDef):
+                    x.body = [s for s in x.body if not (isinstance(s, ast.Expr) and isinstance(s.value, ast.Constant))]
+            return n
+        import copy
+        body = [s for s in copy.deepcopy(fi.node).body if not (isinstance(s, ast.Expr) and isinstance(s.value, ast.Constant))]
+        return "\n".join(ast.unparse(strip(s)) for s in body)
+    toesc = native("build_patterns", {"exprs": ["AnyLetter()"]})      # keeps the native server warm; value unused
+    for name, func in (("__split_range", "split_range_decision"), ("__modify_classes", "modify_classes_decision")):
+        fi = idx.func(K + name)
+        same_form = body_text(fi) == F2_FORMS[name]
+        r = native("run_module", {"module": "pvc.bex_misc", "func": func})
+        for b in r["bad"][:5]:
+            rep.violation(f"F2: {name}: {str(b)[:80]}", b, {"kind": "python", "code": "import pregex.core.classes as cl\n"
+                          f"f = getattr(cl, '__Class')._Class{name}\nobserved = {('f(' + repr(b.get('item')) + ')') if name == '__split_range' else 'None'}\nviolated = True"},
+                          witness=str(b.get("item", b.get("items"))))
+        if r["bad"]:
+            rep.ob(f"F2: {name} over all item shapes and singled-out characters", "failed", "cpython-exhaustive", 0, kind="finite")
+        elif same_form:
+            rep.ob(f"F2: {name} over all item shapes and singled-out characters ({r['cases']} cases; body has the data-independent form)",
+                   "discharged", "cpython-exhaustive", 0, kind="finite")
+        else:
+            rep.ob(f"F2: {name}: the body no longer has the form the data-independence argument was made for; {r['cases']} cases run, none fails",
+                   "unknown", "ast-scan", 0, kind="refinement-lost")
+        rep.finite.append({"what": f"{name}: every item shape x every character the function singles out (+ 2 representatives of the others)",
+                           "evaluations": r["cases"], "distinct_nontrivial": r["cases"], "exhaustive": bool(same_form),
+                           "rule": "distinct items"})
+
+
 def run(rep, tier):
+    f2(rep)
     # interval core: VCs with loop invariants over lists-as-maps, all list lengths, all code points
     vcrun.run_functions(rep, INTERVAL + OPERATORS + CORE, tier)
     rep.assumptions.append("G8b (__or, __sub) is relative to the assumed contracts of the text layer: __extract_classes(t, unescape=True) "
